@@ -1,4 +1,5 @@
 import CoapVerif.Model.TcpCoder
+import CoapVerif.Generated.PoolRetry
 /-!
 # Model of `message/pool/message.go`: `MarshalWithEncoder`, `UnmarshalWithDecoder`, `decode`
 
@@ -61,9 +62,16 @@ def marshalWithEncoder (c : Coder) (r : PoolMsg) : Except Err (Bytes × PoolMsg)
 
 /-! ### The capacity retry of `decode` (executable twin) -/
 
-/-- New option capacity after `ErrOptionsTooSmall`: `len(r.msg.Options)*2` — the slice is full at
-that point, so `len = cap` — and 16 when that is 0. -/
-def newCap (cap : Nat) : Nat := if cap * 2 = 0 then 16 else cap * 2
+/-- New option capacity after `ErrOptionsTooSmall`: `len(r.msg.Options) * retryFactor` — the slice is full at
+that point, so `len = cap` — replaced by `retryZeroCap` when that is 0, and clamped to `retryCapLimit` if the
+source has such a cap.  The three facts are read from the AST of `(*Message).decode` on every run
+(`Generated/PoolRetry.lean`); the termination proof of `decodeRetry` needs `retryCapLimit = none`. -/
+def newCap (cap : Nat) : Nat :=
+  let c := if cap * CoapVerif.Generated.PoolRetry.retryFactor = 0 then CoapVerif.Generated.PoolRetry.retryZeroCap
+    else cap * CoapVerif.Generated.PoolRetry.retryFactor
+  match CoapVerif.Generated.PoolRetry.retryCapLimit with
+  | some l => if c > l then l else c
+  | none => c
 
 /-- `Message.decode(decoder)` with explicit fuel (number of retries still allowed). -/
 def decodeRetryN (c : Coder) : Nat → Nat → Bytes → Except Err (Msg × Nat) × Nat
